@@ -332,10 +332,114 @@ def check_clients(eng, run):
     run.floor("C03.cli sites", n, 6)
 
 
+class FlowCtl(RuleAnalysis):
+    """fact: frozenset of {'shrunk','grown'}: the buffered-bytes level changed and the matching flow-control hook has not run yet."""
+    tokens = ("Exception", CANCELLED)
+
+    def __init__(self, engine, level, transport_attr, pauser, resumer):
+        super().__init__(engine)
+        self.level, self.tattr, self.pauser, self.resumer = level, transport_attr, pauser, resumer
+        self.viol = []
+        self.changes = 0
+
+    def initial(self, fn):
+        return [frozenset()]
+
+    def may_raise(self, node, fact):
+        return list(self.tokens) if isinstance(node, ast.Await) else []
+
+    def transfer(self, node, fact):
+        if isinstance(node, ast.AugAssign) and dotted(node.target) == self.level:
+            self.changes += 1
+            return [fact | {"grown" if isinstance(node.op, ast.Add) else "shrunk"}]
+        if isinstance(node, (ast.Assign, ast.AnnAssign)) and node.value is not None:
+            tg = node.targets if isinstance(node, ast.Assign) else [node.target]
+            if any(dotted(t) == self.level for t in tg):
+                self.changes += 1
+                return [fact | {"shrunk"}]
+            if any(dotted(t) == self.tattr for t in tg) and isinstance(node.value, ast.Constant) and node.value.value is None:
+                return [frozenset()]  # the transport is gone: nothing left to pause or resume
+        c = call_of(node)
+        if isinstance(node, ast.Call) and isinstance(c.func, ast.Attribute) and dotted(c.func.value) == self.fn.self_name:
+            if c.func.attr == self.resumer:
+                return [fact - {"shrunk"}]
+            if c.func.attr == self.pauser:
+                return [fact - {"grown"}]
+        if isinstance(node, (ast.Return, FnExit)) and fact:
+            self.viol.append((node, fact))
+        return [fact]
+
+
+def check_flow(eng, run):
+    """Read flow control is paired: whoever takes bytes out of the protocol's internal buffer re-evaluates resume_reading() before
+    returning, whoever adds bytes re-evaluates pause_reading(): otherwise a paused transport stays paused for ever (bytes the peer
+    sent are never delivered and EOF is never seen) or a full buffer is handed to the event loop (connection aborted, data lost)."""
+    n = 0
+    for ci in eng.db.classes.values():
+        pauser = resumer = None
+        for fn in ci.methods.values():
+            calls = {c.func.attr for c in own_nodes(fn.node) if isinstance(c, ast.Call) and isinstance(c.func, ast.Attribute)}
+            if "pause_reading" in calls:
+                pauser = fn
+            if "resume_reading" in calls:
+                resumer = fn
+        if pauser is None or resumer is None:
+            continue
+        s = pauser.self_name
+
+        def attrs_in_test(fn):
+            t = next((x.test for x in own_nodes(fn.node) if isinstance(x, ast.If)), None)
+            return {dotted(a) for a in ast.walk(t) if isinstance(a, ast.Attribute) and dotted(a.value) == s} if t is not None else set()
+
+        def compared(fn):
+            t = next((x.test for x in own_nodes(fn.node) if isinstance(x, ast.If)), None)
+            out = set()
+            for cmp_ in [x for x in ast.walk(t) if isinstance(x, ast.Compare)] if t is not None else []:
+                if isinstance(cmp_.ops[0], (ast.GtE, ast.Gt, ast.LtE, ast.Lt)):
+                    out.add(dotted(cmp_.left))
+            return out
+        level = (compared(pauser) & compared(resumer))
+        walrus = {dotted(x.value) for x in ast.walk(pauser.node) if isinstance(x, ast.NamedExpr)}
+        if len(level) != 1 or not walrus:
+            raise AnalysisError(f"anchor vanished: buffered level / transport attribute of {ci.name} flow control")
+        level = next(iter(level))
+        tattr = sorted(walrus)[0]
+        for fn in ci.methods.values():
+            if fn in (pauser, resumer) or isinstance(fn.node, ast.Lambda) or fn.name == "__init__":
+                continue
+            if not any(isinstance(x, (ast.Assign, ast.AugAssign, ast.AnnAssign)) and any(dotted(t) == level for t in (x.targets if isinstance(x, ast.Assign) else [x.target])) for x in own_nodes(fn.node)):
+                continue
+            an = FlowCtl(eng, level, tattr, pauser.name, resumer.name)
+            Interp(an, fn).run()
+            n += 1
+            seen = set()
+            for node, fact in an.viol:
+                what = "resume" if "shrunk" in fact else "pause"
+                if what in seen:
+                    continue
+                seen.add(what)
+                st = fn.node if isinstance(node, FnExit) else node
+                run.finding("C03.flow", fn, st, f"returns after {'taking bytes out of' if what == 'resume' else 'adding bytes to'} the internal receive buffer (`{level}`) without re-evaluating "
+                            f"{what}_reading(): " + ("once reading was paused it is never resumed - the rest of the stream and the end-of-stream are never delivered" if what == "resume"
+                                                     else "a full buffer is handed to the event loop, which aborts the connection"))
+            run.ob("C03.flow", f"{fn.short}:level-change-followed-by-flow-control", not an.viol, level_changes=an.changes)
+    run.floor("C03.flow functions changing the buffered level", n, 3)
+
+
+def check_buf(eng, run):
+    """a caller-owned receive buffer registered with the event loop is withdrawn on every exit of the receive (shared with C10.lend)"""
+    from rules.c10 import check_lend
+    check_lend(eng, run, rule="C03.buf", cancel_arm=False)
+
+
 def run(eng, run):
     run.not_decided += NOT_DECIDED
     check_receivers(eng, run)
     check_clients(eng, run)
+    check_flow(eng, run)
+    check_buf(eng, run)
+    from sa.analyses.arms import check_dead_arms
+    check_dead_arms(eng, run, "C03.arms", ("clients.tcp", "clients.async_tcp", "lowlevel._stream", "lowlevel.api_async.transports.tls", "lowlevel.api_sync.transports"), 8)
 
 
 # ---------------------------------------------------------------------------------------------- self-test corpus
@@ -382,4 +486,29 @@ BENIGN = [
     Variant("rename-latch-local-alias", _AR + ".receive", lambda fn: rename_local(fn, "chunk", "data"), why="local renamed"),
     Variant("continue-to-else", _SBR + ".receive", lambda fn: rename_local(fn, "nbytes", "count"), why="local renamed"),
     Variant("inline-bufsize", _AR + ".receive", lambda fn: (delete_stmt(fn, stmt_has("bufsize: int = self.max_recv_size")), replace_expr(fn, "bufsize", "self.max_recv_size")), why="local inlined"),
+]
+
+_SOCKP = "lowlevel.api_async.backend._asyncio.stream.socket:StreamReaderBufferedProtocol"
+
+
+def _move_oserror_arm_first(fn):
+    t = next(x for x in ast.walk(fn) if isinstance(x, ast.Try) and len(x.handlers) >= 3)
+    h = next(h for h in t.handlers if ast.unparse(h.type) == "OSError")
+    t.handlers.remove(h)
+    t.handlers.insert(1, h)
+
+
+MUTANTS += [
+    Variant("resume-dropped-in-receive-data-into", _SOCKP + ".receive_data_into", lambda fn: delete_stmt(fn, stmt_is("self._maybe_resume_transport()")), "C03.flow",
+            why="a backlog above the high-water mark pauses reading for ever: the rest of the stream and EOF are never delivered (seed C03-5)"),
+    Variant("pause-dropped-in-buffer-updated", _SOCKP + ".buffer_updated", lambda fn: delete_stmt(fn, stmt_is("self._maybe_pause_transport()")), "C03.flow",
+            why="a full internal buffer is handed to the loop"),
+    Variant("external-buffer-not-withdrawn-on-cancel", _SOCKP + "._wait_for_data",
+            lambda fn: replace_stmt(fn, stmt_is("try:"), "nbytes_written_in_external_buffer = await self.__read_waiter\nself.__external_buffer_view = None", 1), "C03.buf",
+            why="after a timed-out receive the loop writes into a released buffer: later packets never delivered (seed C03-4)"),
+    Variant("ssl-eof-arm-shadowed-by-oserror", "clients.async_tcp:AsyncTCPNetworkClient.__convert_socket_error", _move_oserror_arm_first, "C03.arms",
+            why="SSLError is an OSError: the ragged-EOF -> ECONNABORTED conversion never runs (seed C03-6)"),
+]
+BENIGN += [
+    Variant("resume-before-return-via-local", _SOCKP + ".receive_data", lambda fn: replace_stmt(fn, stmt_is("return data"), "result = data\nreturn result"), why="return through a local"),
 ]
